@@ -110,6 +110,7 @@ func (pt *InPort) Recv() *FileIP {
 func (pt *InPort) CloseConnection(rptName string) {
 	pt.closeLock.Lock()
 	delete(pt.RemotePorts, rptName)
+	vhook("conn.close", "port", vInName(pt), "from", rptName, "left", len(pt.RemotePorts))
 	if len(pt.RemotePorts) == 0 {
 		close(pt.Chan)
 	}
@@ -215,7 +216,9 @@ func (pt *OutPort) Ready() bool {
 func (pt *OutPort) Send(ip *FileIP) {
 	for _, rpt := range pt.RemotePorts {
 		Debug.Printf("Sending on out-port (%s) connected to in-port (%s)", pt.Name(), rpt.Name())
+		vhook("send.begin", "from", vOutName(pt), "to", vInName(rpt), "path", ip.Path())
 		rpt.Send(ip)
+		vhook("send.done", "from", vOutName(pt), "to", vInName(rpt), "path", ip.Path())
 	}
 }
 
@@ -355,6 +358,7 @@ func (pip *InParamPort) Recv() string {
 func (pip *InParamPort) CloseConnection(popName string) {
 	pip.closeLock.Lock()
 	delete(pip.RemotePorts, popName)
+	vhook("connp.close", "port", vPInName(pip), "from", popName, "left", len(pip.RemotePorts))
 	if len(pip.RemotePorts) == 0 {
 		close(pip.Chan)
 	}
@@ -453,7 +457,9 @@ func (pop *OutParamPort) Ready() bool {
 func (pop *OutParamPort) Send(param string) {
 	for _, pip := range pop.RemotePorts {
 		Debug.Printf("Sending on out-param-port (%s) connected to in-param-port (%s)", pop.Name(), pip.Name())
+		vhook("sendp.begin", "from", vPOutName(pop), "to", vPInName(pip), "val", param)
 		pip.Send(param)
+		vhook("sendp.done", "from", vPOutName(pop), "to", vPInName(pip), "val", param)
 	}
 }
 
